@@ -98,7 +98,10 @@ func (m *SMT) def(hint, sort string, body Term) Term {
 	}
 	m.n++
 	name := sym(fmt.Sprintf("%s!%d", hint, m.n))
-	m.decls = append(m.decls, fmt.Sprintf("(define-fun %s () %s %s)", name, sort, body))
+	// a declared constant with a defining equation rather than a define-fun macro: terms stay
+	// linear in size, and the name may appear in quantifier patterns
+	m.decls = append(m.decls, fmt.Sprintf("(declare-const %s %s)", name, sort))
+	m.facts = append(m.facts, "(= "+name+" "+body+")")
 	m.sorts[name] = sort
 	return name
 }
